@@ -14,6 +14,9 @@
 #include <fstream>
 #include <sstream>
 #include <memory>
+#include <streambuf>
+#include <istream>
+#include <algorithm>
 #include <unistd.h>
 #include <sys/stat.h>
 #include <boost/gil.hpp>
@@ -118,6 +121,77 @@ inline std::string fixture_dir(const char* fmt) {
     }
     return std::string("/repo/test/extension/io/images/") + fmt;
 }
+
+// ---- input streams with fragmented delivery ------------------------------------------------------
+// A read-only, seekable streambuf over a byte string whose get area is refilled k bytes at a time:
+// in_avail()/readsome() see at most k bytes, istream::read needs several underflows, and a device that
+// tops up short reads has to put every piece at the right offset.
+class frag_buf : public std::streambuf {
+    char* b_; size_t n_, k_;
+    size_t pos() const { return (size_t)(gptr() - b_); }
+public:
+    long underflows = 0;
+    frag_buf(std::string const& s, size_t k) : b_(const_cast<char*>(s.data())), n_(s.size()), k_(k ? k : 1) { setg(b_, b_, b_); }
+protected:
+    int_type underflow() override {
+        if (gptr() < egptr()) return traits_type::to_int_type(*gptr());
+        size_t p = pos();
+        if (p >= n_) return traits_type::eof();
+        size_t m = std::min(k_, n_ - p);
+        ++underflows;
+        setg(b_ + p, b_ + p, b_ + p + m);
+        return traits_type::to_int_type(*gptr());
+    }
+    std::streamsize showmanyc() override {           // what a refill would deliver without blocking
+        size_t p = pos();
+        return p >= n_ ? -1 : (std::streamsize)std::min(k_, n_ - p);
+    }
+    int_type pbackfail(int_type c) override {
+        if (gptr() == b_) return traits_type::eof();
+        char* q = gptr() - 1;
+        if (!traits_type::eq_int_type(c, traits_type::eof()) && !traits_type::eq(traits_type::to_char_type(c), *q)) return traits_type::eof();
+        setg(q, q, egptr());
+        return traits_type::not_eof(c);
+    }
+    pos_type seekoff(off_type off, std::ios_base::seekdir dir, std::ios_base::openmode which) override {
+        if (!(which & std::ios_base::in)) return pos_type(off_type(-1));
+        long long base = dir == std::ios_base::beg ? 0 : dir == std::ios_base::cur ? (long long)pos() : (long long)n_;
+        long long np = base + off;
+        if (np < 0 || np > (long long)n_) return pos_type(off_type(-1));
+        setg(b_ + np, b_ + np, b_ + np);             // empty get area: the next read refills k bytes from here
+        return pos_type(np);
+    }
+    pos_type seekpos(pos_type sp, std::ios_base::openmode which) override { return seekoff(off_type(sp), std::ios_base::beg, which); }
+};
+enum { SK_FRAG1 = 0, SK_FRAG2, SK_FRAG7, SK_FRAG64, SK_FRAG4096, SK_FRAGSEEDED, SK_IFSTREAM, SK_SSWRITE, SK_COUNT, SK_PLAIN = 100 };
+inline const char* stream_kind_name(int k) {
+    static const char* n[] = { "frag1", "frag2", "frag7", "frag64", "frag4096", "frag-seeded", "ifstream", "stringstream-written" };
+    return k == SK_PLAIN ? "istringstream" : n[k];
+}
+// one input stream of the given kind over `bytes` (which must outlive it); a fresh one per read
+struct stream_src {
+    std::unique_ptr<frag_buf> fb;
+    std::unique_ptr<std::istream> in;
+    std::unique_ptr<scratch_file> sf;
+    std::istream& open(int kind, std::string const& bytes, size_t seeded_k) {
+        static const size_t ks[] = { 1, 2, 7, 64, 4096 };
+        if (kind == SK_PLAIN) in.reset(new std::istringstream(bytes, std::ios::in | std::ios::binary));
+        else if (kind <= SK_FRAGSEEDED) { fb.reset(new frag_buf(bytes, kind == SK_FRAGSEEDED ? seeded_k : ks[kind])); in.reset(new std::istream(fb.get())); }
+        else if (kind == SK_IFSTREAM) {
+            sf.reset(new scratch_file("c13f", "img"));
+            if (!spill(sf->path, bytes)) vh::fatal_monitor("harness", "cannot write scratch file " + sf->path);
+            in.reset(new std::ifstream(sf->path.c_str(), std::ios::in | std::ios::binary));
+        } else {
+            std::stringstream* ss = new std::stringstream(std::ios::in | std::ios::out | std::ios::binary);
+            in.reset(ss);
+            size_t half = bytes.size() / 2;                      // filled by two writes, never by construction
+            ss->write(bytes.data(), (std::streamsize)half);
+            ss->write(bytes.data() + half, (std::streamsize)(bytes.size() - half));
+        }
+        return *in;
+    }
+    ~stream_src() { in.reset(); fb.reset(); sf.reset(); }
+};
 
 // ---- channel access independent of GIL's pixel comparison ------------------------------------
 // every channel of a pixel as an exactly comparable 64-bit pattern (floats by bit pattern of the
